@@ -52,7 +52,8 @@ def basis(lat):
     return REBASES[lat["rebase"]] @ L
 
 
-def positions(seed, L=None, noisy=False):
+def positions(seed, L=None, noisy=False, symprec=None):
+    symprec = symprec or SYMPREC
     g = np.random.default_rng(31 + seed)
     pos_to = [np.array(t) / 4.0 for t in itertools.product(range(4), repeat=3)] + [g.uniform(0, 1, 3).round(6) for _ in range(3)]
     pos_to = np.array(pos_to)
@@ -63,8 +64,8 @@ def positions(seed, L=None, noisy=False):
         # noise of the order of symprec itself: formerly tied images now differ by 0 .. ~2.5 symprec in length, so that the
         # rule "keep exactly those within symprec of the minimum" is exercised on both sides of the threshold
         Li = np.linalg.inv(L)
-        pos_to = pos_to + (g.uniform(-1, 1, pos_to.shape) * 0.6 * SYMPREC) @ Li
-        pos_from = pos_from + (g.uniform(-1, 1, pos_from.shape) * 0.6 * SYMPREC) @ Li
+        pos_to = pos_to + (g.uniform(-1, 1, pos_to.shape) * 0.6 * symprec) @ Li
+        pos_from = pos_from + (g.uniform(-1, 1, pos_from.shape) * 0.6 * symprec) @ Li
     elif noisy:
         # positions symmetric only up to noise far below symprec: tied images then differ by ~1e-7 in length and
         # must all be kept ("within the symmetry tolerance")
@@ -82,7 +83,9 @@ def plan(tier, seed):
     chunk = 40
     for k in range(0, len(lats), chunk):
         groups.append([{"kind": "lattice", "lat": l, "storage": st, "noisy": nz} for l in lats[k:k + chunk] for st in ("dense", "sparse")
-                       for nz in (False, True, "ladder")])
+                       for nz in (False, True, "ladder")] +
+                      # a caller-chosen tolerance (coordinates of limited precision): the rule follows it
+                      [{"kind": "lattice", "lat": l, "storage": st, "noisy": "ladder", "symprec": 1e-3} for l in lats[k:k + chunk:4] for st in ("dense", "sparse")])
     prim = []
     for pre in prefixes(tier, seed):
         for st in ("dense", "sparse"):
@@ -174,11 +177,12 @@ def run_lattice(case, seed):
 
     L = basis(case["lat"])
     noisy = case.get("noisy")
-    pos_to, pos_from = positions(seed, L, noisy)
+    sp = case.get("symprec", SYMPREC)
+    pos_to, pos_from = positions(seed, L, noisy, sp)
     dense = case["storage"] == "dense"
-    tag = case["storage"] + ("/ties-spread-around-symprec" if noisy == "ladder" else "/noisy-ties" if noisy else "")
+    tag = case["storage"] + ("/ties-spread-around-symprec" if noisy == "ladder" else "/noisy-ties" if noisy else "") + ("/symprec=%g" % sp if sp != SYMPREC else "")
     try:
-        sv, mu = get_smallest_vectors(L, pos_to, pos_from, store_dense_svecs=dense, symprec=SYMPREC)
+        sv, mu = get_smallest_vectors(L, pos_to, pos_from, store_dense_svecs=dense, symprec=sp)
     except Exception as e:
         return dict(ok=False, sig="C05/raised/" + tag, msg="%s: %s" % (type(e).__name__, str(e)[:200]))
     if dense:
@@ -192,7 +196,7 @@ def run_lattice(case, seed):
     else:
         def get(i, j):
             return sv[i, j, :mu[i, j]]
-    bad, cnt = judge_pairs(L, pos_to, pos_from, get, tie_tol=(1e-6 if noisy else None), window=(noisy == "ladder"))
+    bad, cnt = judge_pairs(L, pos_to, pos_from, get, symprec=sp, tie_tol=(1e-6 if noisy else None), window=(noisy == "ladder"))
     mm_ = cnt.pop("_maxmult", 0)
     if bad:
         return dict(ok=False, sig="C05/%s/%s" % (bad[0], tag), msg="lattice %s %s: %s" % (case["lat"], tag, bad[1]), count=cnt)
